@@ -35,5 +35,7 @@ def run(tier, seed, replay=None):
              "x provenance chains over 10 hop kinds (element, map entry, member, script call, Go call returning interface{}, "
              "parentheses, ternary, ??, parameter, second element): all chains of length 1, 25% of length 2 (thorough: length 3 "
              "sampled); oracle on the implementation alone: same result value, dynamic type and error-or-success as with the "
-             "plain variable; and agreement with the (provenance-blind) Coq model",
+             "plain variable; and agreement with the (provenance-blind) Coq model; plus 16 templates (method calls, method values, len, index, "
+             "member, for-in, +, ==, deref) x 4 Go values of named non-struct types with methods (time.Duration, url.Values, sort.IntSlice, "
+             "*time.Duration) x chains, judged by the same law on the implementation alone (the model has no such values)",
         design_ref="DESIGN.md §4 C20", impl_oracle=impl_oracle, max_dropped=0.2)
